@@ -968,7 +968,8 @@ fn group_transformed(ctx: &GroupCtx<'_>, files: Vec<FileInfo>) -> Vec<FileGroup<
     let groups = rehash(
         groups,
         |_| true,
-        |g| g.matches(&ctx.group_filter),
+        // this is the only and therefore the final stage: apply the replication filter strictly
+        |g| g.matches_strictly(&ctx.group_filter),
         &ctx.devices,
         FileAccess::Sequential,
         |(fi, _)| {
